@@ -325,6 +325,10 @@ pub fn run(ctx: &Ctx) -> i32 {
                     acc.violation("failed-run-touched-report", witness(json!({"stderr": trunc(&stderr, 200)})));
                 }
                 acc.cov("runs:failing");
+            } else if code != Some(0) && reference.is_some() {
+                // the same tree is analysed without error from a fresh directory, so the failure comes from where the run was
+                // started or where its configuration file lives: no report was created or replaced
+                acc.violation(format!("valid-run-failed:cwd={}", ["outside-tree", "tree-root", "subdir-of-tree", "parent"][cwd_kind as usize]), witness(json!({"stderr": trunc(&stderr, 300)})));
             } else if code != Some(0) {
                 acc.inconclusive(format!("solstat failed on a pool tree: code {:?} stderr {}", code, trunc(&stderr, 200)));
             } else {
